@@ -47,6 +47,9 @@ def rand_flags(rng):
             kv["zi"] = str(rng.choice([1, 3, 15]))
     elif rng.random() < 0.45:
         kv["zc"] = str(rng.randrange(13))
+    if rng.random() < 0.1:
+        # 0 = already expired (the library then returns its input: deterministic), 3600 = never expires during a check
+        kv["timeout"] = rng.choice(["0", "0", "3600"])
     return kv
 
 
@@ -65,6 +68,8 @@ def argv_of(rng, kv):
             groups.append(["--keep", ",".join(x if x == "display" else bytes.fromhex(x).decode() for x in v.split("+"))])
         elif k == "zc":
             groups.append(["--zc", v])
+        elif k == "timeout":
+            groups.append(["--timeout", v])
         elif k == "zi":
             groups.append(["--zi", v])
         elif k == "Z":
@@ -141,7 +146,11 @@ def run(rep):
     for cid, (kv, png, route) in zip(ids, cases):
         r = rmo.get(cid, "")
         if r.startswith("ok "):
-            lc.add(f"opt {r[3:]} {png.hex()}", src=cid)
+            ostr = r[3:]
+            if "timeout" in kv:
+                # the model records only THAT a timeout is set; its length is passed through unchanged
+                ostr = ostr.replace("timeout=1", "timeout=" + kv["timeout"])
+            lc.add(f"opt {ostr} {png.hex()}", src=cid)
     rl = vlib.run_cases(impl, lc.lines)
     lib = {m["src"]: rl.get(c) for c, m in lc.meta.items()}
     tmp = tempfile.mkdtemp(prefix="oxiverif-c09-")
@@ -229,7 +238,7 @@ def run(rep):
             want = lib.get(cid)
             mo = rmo.get(cid, "")
             if want and want.startswith("ok ") and mo.startswith("ok ") and "Z" not in kv:
-                second.append((cid, kv, bytes.fromhex(want[3:]), mo[3:]))
+                second.append((cid, kv, bytes.fromhex(want[3:]), mo[3:].replace("timeout=1", "timeout=" + kv["timeout"]) if "timeout" in kv else mo[3:]))
         for cid, kv, inp, mopts in second:
             sp.add(f"opt {mopts} {inp.hex()}", src=cid)
         rs = vlib.run_cases(impl, sp.lines)
